@@ -376,6 +376,12 @@ static inline int ubuf_block_delete(struct ubuf *ubuf, int offset, int size)
         return UBASE_ERR_INVALID;
 
     struct ubuf_block *head_block = ubuf_block_from_ubuf(ubuf);
+    if (unlikely(size != -1 &&
+                 (size < 0 ||
+                  size > (int)head_block->total_size -
+                         (offset < 0 ? offset + (int)head_block->total_size :
+                                       offset))))
+        return UBASE_ERR_INVALID;
     if (unlikely((ubuf = ubuf_block_get(ubuf, &offset, &size)) == NULL))
         return UBASE_ERR_INVALID;
     int delete_size = size;
